@@ -45,6 +45,9 @@ type c13Prog struct {
 	Enc     string // EncryptionMethod (authenticated ones: the key of a message is identified by its tag)
 	Browser string
 	Conns   []c13Conn
+	// UDP: ckclient.json "UDP": true, the proxy method is served over UDP: every proxied "connection" is a UDP socket
+	// of its own sending its chunks as datagrams (client.RouteUDP, unordered sessions)
+	UDP bool `json:",omitempty"`
 }
 
 type c13TapConn struct {
@@ -120,12 +123,34 @@ func c13Run(sc c13Prog) (vk.Result, error) {
 	defer os.RemoveAll(dir)
 
 	// proxy backend: swallows everything, counts bytes
+	var received atomic.Int64
+	var backendAddr, backendNet string
+	if sc.UDP {
+		ub, err := net.ListenUDP("udp", &net.UDPAddr{IP: net.IPv4(127, 0, 0, 1)})
+		if err != nil {
+			return res, fmt.Errorf("harness: %v", err)
+		}
+		defer ub.Close()
+		backendAddr, backendNet = ub.LocalAddr().String(), "udp"
+		go func() {
+			buf := make([]byte, 65536)
+			for {
+				n, _, err := ub.ReadFrom(buf)
+				if err != nil {
+					return
+				}
+				received.Add(int64(n))
+			}
+		}()
+	}
 	backend, err := net.Listen("tcp", "127.0.0.1:0")
 	if err != nil {
 		return res, fmt.Errorf("harness: %v", err)
 	}
 	defer backend.Close()
-	var received atomic.Int64
+	if !sc.UDP {
+		backendAddr, backendNet = backend.Addr().String(), "tcp"
+	}
 	go func() {
 		for {
 			c, err := backend.Accept()
@@ -152,7 +177,7 @@ func c13Run(sc c13Prog) (vk.Result, error) {
 	rand.Read(uid)
 	rnd := &c13Rand{}
 	sta, err := server.InitState(server.RawConfig{
-		ProxyBook:  map[string][]string{"shadowsocks": {"tcp", backend.Addr().String()}},
+		ProxyBook:  map[string][]string{"shadowsocks": {backendNet, backendAddr}},
 		BypassUID:  [][]byte{uid},
 		RedirAddr:  "127.0.0.1:1",
 		PrivateKey: pv.(*[32]byte)[:],
@@ -177,7 +202,7 @@ func c13Run(sc c13Prog) (vk.Result, error) {
 	cfg := map[string]interface{}{
 		"Transport": "direct", "ProxyMethod": "shadowsocks", "EncryptionMethod": sc.Enc,
 		"UID": base64.StdEncoding.EncodeToString(uid), "PublicKey": base64.StdEncoding.EncodeToString(ecdh.Marshal(pub)),
-		"ServerName": "www.bing.com", "NumConn": sc.NumConn, "BrowserSig": sc.Browser, "StreamTimeout": 300,
+		"ServerName": "www.bing.com", "NumConn": sc.NumConn, "BrowserSig": sc.Browser, "StreamTimeout": 300, "UDP": sc.UDP,
 	}
 	cfgBytes, _ := json.Marshal(cfg)
 	cfgPath := filepath.Join(dir, "ckclient.json")
@@ -191,9 +216,21 @@ func c13Run(sc c13Prog) (vk.Result, error) {
 	// main() has read its arguments once it listens
 	var probe net.Conn
 	for i := 0; i < 500; i++ {
-		probe, err = net.Dial("tcp", "127.0.0.1:"+localPort)
-		if err == nil {
-			break
+		if sc.UDP {
+			// listening once the port can no longer be bound
+			lp, _ := strconv.Atoi(localPort)
+			if u, berr := net.ListenUDP("udp", &net.UDPAddr{IP: net.IPv4(127, 0, 0, 1), Port: lp}); berr != nil {
+				err = nil
+				break
+			} else {
+				u.Close()
+				err = fmt.Errorf("port still free")
+			}
+		} else {
+			probe, err = net.Dial("tcp", "127.0.0.1:"+localPort)
+			if err == nil {
+				break
+			}
 		}
 		time.Sleep(10 * time.Millisecond)
 	}
@@ -203,7 +240,9 @@ func c13Run(sc c13Prog) (vk.Result, error) {
 	if err != nil {
 		return res, fmt.Errorf("harness: ck-client does not listen on its local port: %v", err)
 	}
-	probe.Close() // a proxied connection that never sends anything: no session is made for it
+	if probe != nil {
+		probe.Close() // a proxied connection that never sends anything: no session is made for it
+	}
 
 	// the proxied connections
 	var total int64
@@ -218,7 +257,11 @@ func c13Run(sc c13Prog) (vk.Result, error) {
 		go func(i int, c c13Conn) {
 			defer wg.Done()
 			time.Sleep(time.Duration(c.StartMs) * time.Millisecond)
-			pc, err := net.Dial("tcp", "127.0.0.1:"+localPort)
+			network := "tcp"
+			if sc.UDP {
+				network = "udp"
+			}
+			pc, err := net.Dial(network, "127.0.0.1:"+localPort)
 			if err != nil {
 				return
 			}
@@ -316,6 +359,9 @@ func c13Run(sc c13Prog) (vk.Result, error) {
 	}
 	res.NonTrivial = frames >= 2 && len(sc.Conns) >= 2
 	res.Labels = append(res.Labels, "numconn="+strconv.Itoa(sc.NumConn), "enc="+sc.Enc)
+	if sc.UDP {
+		res.Labels = append(res.Labels, "udp")
+	}
 	if len(keysUsed) >= 2 {
 		res.Labels = append(res.Labels, "several-sessions-of-one-process")
 	}
@@ -340,6 +386,16 @@ func TestVerif_C13_Program(t *testing.T) {
 				c.Chunks = append(c.Chunks, rapid.SampledFrom([]int{1, 100, 3000, 16132, 40000}).Draw(rt, "chunk"))
 			}
 			sc.Conns = append(sc.Conns, c)
+		}
+		if rapid.IntRange(0, 3).Draw(rt, "udp") == 0 {
+			sc.UDP = true
+			for i := range sc.Conns {
+				for k, n := range sc.Conns[i].Chunks {
+					if n > 8000 {
+						sc.Conns[i].Chunks[k] = 1400 + n%6000 // RouteUDP reads datagrams of up to 8192 bytes
+					}
+				}
+			}
 		}
 		return sc
 	}, c13Run)
